@@ -23,7 +23,7 @@ ENV = dict(os.environ, CARGO_NET_OFFLINE="true")
 CHECKS = {
     "src/connection.rs": ["C01", "C11", "C04", "C13", "C06", "C12", "C03", "C02", "C14"],
     "src/request.rs": ["C02", "C14", "C16", "C03", "C17", "C01"],
-    "src/common/headers.rs": ["C15", "C02", "C13", "C14", "C03"],
+    "src/common/headers.rs": ["C15", "C16", "C02", "C13", "C14", "C03"],
     "src/common/mod.rs": ["C16", "C02", "C04"],
     "src/response.rs": ["C05", "C06", "C13", "C17"],
     "src/router.rs": ["C17"],
@@ -128,7 +128,7 @@ def main():
             t0 = time.time()
             rec = {"n": n, "file": path, "line": i + 1, "mutation": what, "old": old_line.strip(), "new": new.strip()}
             try:
-                rc, out = sh(["cargo", "test", "--offline", "--lib"], cwd=REPO, timeout=300)
+                rc, out = sh(["cargo", "test", "--offline", "--lib"], cwd=REPO, timeout=60)
             except subprocess.TimeoutExpired:
                 rc, out = 1, "test result: FAILED (timeout)"
             if "error" in out and "could not compile" in out:
